@@ -122,7 +122,8 @@ fragment above closed under
   * aggregations `op by/without (..) (e)` on both of the engine's paths (hash table, vectorized),
     for every aggregator whose accumulator is the reference reduction on non-empty groups (`hR`:
     `C04.reduce_hyp_plain/_sum/_avg`) and whose reduction does not depend on the order of the
-    members (`hP`: `perm_hyp_count`, `perm_hyp_group` outright; `perm_hyp_max/_min` under the IEEE
+    members (`hP`: `perm_hyp_count`, `perm_hyp_group` outright; `perm_hyp_max/_min` and
+    `perm_hyp_quantile` - with a scalar-typed parameter of the fragment, `aggP` - under the IEEE
     order laws with trichotomy and one NaN; `perm_hyp_sum` under associativity and commutativity),
   * one-to-one vector matching `l op on/ignoring (..) r`, with and without `bool`, between operands
     whose series have pairwise distinct match keys (`UniqueKeys`; `uniqueKeys_agg`: always the case
@@ -157,6 +158,18 @@ example (c : Ctx V) : FragP c
           (.agg "group" false ["a"] _ (by decide) (C04.reduce_hyp_plain "group" nan (by decide) (by decide)) (perm_hyp_group nan)
             (.base _ (.rangefn "rate" _ _ (by decide))))))
       (.num _))
+
+/-- ... and, under the order laws, `quantile(scalar(q), max by (a) (m))` -/
+example (c : Ctx V) (L : LtLaws (fun v : V => isNaN v = false)) (hn : NanLaw V)
+    (htri : ∀ a b : V, isNaN a = false → isNaN b = false → lt a b = false → lt b a = false → a = b)
+    (hnan : ∀ a b : V, isNaN a = true → isNaN b = true → a = b) : FragP c
+    (.aggP "quantile" false [] (.call "scalar" [.vsel ⟨[⟨.eq, "__name__", "q"⟩], 0, none, none⟩])
+      (.agg "max" false ["a"] (.vsel ⟨[⟨.eq, "__name__", "m"⟩], 0, none, none⟩)) : Expr V) :=
+  .aggP "quantile" false [] _ _ (by decide) (by decide)
+    (fun q => C04.reduce_hyp_plain "quantile" q (by decide) (by decide)) (perm_hyp_quantile L hn htri hnan)
+    (.scalar _ (.vsel _))
+    (.agg "max" false ["a"] _ (by decide) (C04.reduce_hyp_plain "max" nan (by decide) (by decide))
+      (perm_hyp_max L hn htri hnan nan) (.base _ (.vsel _)))
 
 /-- a creation error is always "unsupported": exactly the queries that fall back -/
 theorem creation_error_class (c : Ctx V) (e : Expr V) (er : Err) (h : engOp c e = .error er) : er = .unsupported :=
